@@ -139,7 +139,10 @@ pub fn run(sc: &Value) -> Vec<String> {
             .proxy_settings(attohttpc::ProxySettings::builder().build())
             .connect_timeout(Duration::from_millis(guo(sc, "cto").unwrap_or(600) as u64))
             .read_timeout(Duration::from_millis(2000));
-        if let Some(t) = guo(sc, "T") {
+        if gb(sc, "expired") {
+            // an overall deadline that has passed before the first attempt starts
+            b = b.timeout(Duration::from_nanos(1));
+        } else if let Some(t) = guo(sc, "T") {
             b = b.timeout(Duration::from_millis(t as u64));
         }
         b.send().map(|r| r.status().as_u16())
@@ -169,7 +172,7 @@ pub fn run(sc: &Value) -> Vec<String> {
         Err(p) => ("panic", panic_msg(&p)),
     };
     vec![json!({"ev":"happy","id":gs(sc,"id"),"resolved":resolved,"spawns":spawn_keys,"res":r,"kind":kind,"elapsed":elapsed,
-        "T": guo(sc, "T").unwrap_or(0), "cto": guo(sc, "cto").unwrap_or(600),
+        "T": guo(sc, "T").unwrap_or(0), "cto": guo(sc, "cto").unwrap_or(600), "expired": gb(sc, "expired"),
         "winner": w.map(|(f, n)| json!([f, n])).unwrap_or(json!(["-", 0])), "connections": nconn.load(Ordering::SeqCst)})
     .to_string()]
 }
